@@ -641,6 +641,62 @@ func ruleZ5(c *Ctx) {
 	c.check(n >= 20, "Z5", "predicates", token.NoPos, fmt.Sprintf("%d typestate predicates evaluated (frozen minimum 20)", n))
 }
 
+// Z6: the caller's arrays keep the caller's size. A capacity field (HdrLst.Hdrs, PContacts.Vals, URIParamsLst.Params,
+// URIHdrsLst.Hdrs) is assigned only in Init / Reset methods, and what Reset puts back is the saved slice itself, not a
+// re-sliced view of it (hl.Hdrs[:cap(hl.Hdrs)], hl.Hdrs[:N]): a parser that trims the array to the elements it
+// stored, or a Reset that widens it again, gives a reset object a different capacity from a new one built on the same
+// caller slice (and writes into the caller's neighbouring elements).
+func ruleZ6(c *Ctx) {
+	var keys []string
+	for k := range c.Prog.SFuncs {
+		keys = append(keys, k)
+	}
+	sort.Strings(keys)
+	n := 0
+	for _, k := range keys {
+		fn := c.Prog.SFuncs[k]
+		if fn == nil {
+			continue
+		}
+		ord := 0
+		for _, b := range fn.Blocks {
+			for _, ins := range b.Instrs {
+				st, ok := ins.(*ssa.Store)
+				if !ok {
+					continue
+				}
+				fa, ok := st.Addr.(*ssa.FieldAddr)
+				if !ok || !capacityFields[fieldCell(fa)] {
+					continue
+				}
+				if _, isSlice := st.Val.Type().Underlying().(*types.Slice); !isSlice {
+					continue
+				}
+				n++
+				ord++
+				key := fmt.Sprintf("%s:%s#%d", k, fieldCell(fa), ord)
+				nm := fn.Name()
+				if nm != "Init" && nm != "Reset" {
+					c.fail("Z6", key, st.Pos(), "the caller's array "+fieldCell(fa)+" is re-assigned outside Init/Reset: its length (the capacity the caller chose) changes while parsing")
+					continue
+				}
+				good, why := true, "parameter / saved slice / private default"
+				if sl, ok := st.Val.(*ssa.Slice); ok {
+					// a slice expression over a loaded capacity field is a resized view of the caller's array
+					x := sl.X
+					if u, ok := x.(*ssa.UnOp); ok && u.Op == token.MUL {
+						if f2, ok := u.X.(*ssa.FieldAddr); ok && capacityFields[fieldCell(f2)] {
+							good, why = false, "a re-sliced view of "+fieldCell(f2)
+						}
+					}
+				}
+				c.check(good, "Z6", key, st.Pos(), "the value put into "+fieldCell(fa)+" is the caller's slice as given ("+why+")")
+			}
+		}
+	}
+	c.check(n >= 6, "Z6", "instances", token.NoPos, fmt.Sprintf("%d assignments of caller arrays (frozen minimum 6)", n))
+}
+
 func init() {
 	register(&PropDef{
 		ID: "C12",
@@ -648,6 +704,7 @@ func init() {
 			{"Z1", "every Reset method zeroes its whole receiver (composite wipe) or resets every field of the receiver type; only caller-supplied slices saved before the wipe survive it; re-initialising Init methods call Reset first and then only attach caller arrays", ruleZ1},
 			{"Z2", "a slice that survives Reset is cleared over its full length: the writers hand out element [N] before N++, so a bound of min(N,len) leaves a half-parsed element behind", ruleZ2},
 			{"Z5", "the typestate predicates say what the state says (evaluated on SSA for every value of the one field they read): Empty() true exactly in the initial state, Parsed() exactly in the finished state, Pending() exactly in every other, Err() exactly in the error state; list objects: Empty() is N == 0, Parsed() is N > 0; PFLine.Request() is Status == 0 — a reset object looks empty, a finished one parsed", ruleZ5},
+			{"Z6", "the caller's arrays keep the caller's size: a capacity field (HdrLst.Hdrs, PContacts.Vals, URIParamsLst.Params, URIHdrsLst.Hdrs) is assigned only in Init / Reset methods, and never a re-sliced view of itself (x[:cap(x)], x[:N]), so a reset object has the capacity of a new one built on the same slice", ruleZ6},
 			{"Z4", "a re-initialising Init (Reset first) assigns every array that survives Reset on every path, so that nil arguments select the private defaults and never the arrays of the previous use", ruleZ4},
 			{"Z3", "PSIPMsg.Reset restores exactly Buf, HL.Hdrs and PV.Contacts.Vals, each from its own saved copy, after PV.Reset()/HL.Reset() cleaned the arrays", ruleZ3},
 		},
